@@ -21,8 +21,8 @@ ASSUMPTIONS = [
 TEXT = Cls('NARROW', minus='\\')
 ANYC = Cls('ANYBMP', minus=' \t\r\n/"')
 
-DOC_A = ("Project p {\n  k: 'v'\n}\nEnum e {\n  x\n}\nTable t as T [note: '{N}'] {\n  id int [pk, note: 'cn']\n  s e\n  indexes {\n    id [unique]\n  }\n}\n"
-         "Table u {\n  id int [ref: > t.id]\n}\nRef: u.id - T.id\nTableGroup g {\n  t\n  u\n}\nNote sn {\n  'sticky'\n}\n")
+DOC_A = ("Project p {\n  k: 'v'\n  Note: 'cn'\n}\nEnum e {\n  x [note: 'cn']\n}\nTable t as T [note: '{N}'] {\n  id int [pk, note: 'cn']\n  s e\n  indexes {\n    id [unique, note: 'cn']\n  }\n}\n"
+         "Table u {\n  id int [ref: > t.id]\n}\nRef: u.id - T.id\nTableGroup g {\n  t\n  u\n  Note: 'cn'\n}\nNote sn {\n  'sticky'\n}\n")
 
 
 def _shared_objects():
@@ -203,16 +203,31 @@ def again(b_kind, K=1, fix=None):
     return Harness(body, args, describe=lambda a: dict(a, b_kind=b_kind), bounds={'b_kind': b_kind, 'K': K}, fixed=fix)
 
 
-def isolation(K=1, bare_project=False):
+def _notes(db):
+    """every Note object reachable from a database"""
+    out = []
+    for t in db.tables:
+        out.append(t.note)
+        out.extend(c.note for c in t.columns)
+        out.extend(i.note for i in t.indexes)
+    for e in db.enums:
+        out.extend(i.note for i in e.items)
+    out.extend(g.note for g in db.table_groups)
+    if db.project is not None:
+        out.append(db.project.note)
+    return [n for n in out if n is not None]
+
+
+def isolation(K=1, bare_project=False, fix=None):
     """two results of the same document share no mutable state; editing one changes neither the other nor later parses"""
-    args = hole_args('n', K, TEXT) + [('edit', IntRange(0, 6))]
+    args = hole_args('n', K, TEXT) + [('edit', IntRange(0, 7))]
 
     def body(a):
         from pydbml.classes import Table, Column, Note, EnumItem
         note = text_of(a, 'n', K)
         A = DOC_A.replace('{N}', note.replace("'", "\\'"))
         if bare_project:
-            A = A.replace("Project p {\n  k: 'v'\n}\n", "Project p {\n}\n")      # a project that declares no items
+            A = A.replace("Project p {\n  k: 'v'\n  Note: 'cn'\n}\n", "Project p {\n}\n")      # a project that declares no items
         try:
             r1 = docs.parse(A, allow_properties=True)
             r2 = docs.parse(A, allow_properties=True)
@@ -242,6 +257,10 @@ def isolation(K=1, bare_project=False):
             r1.enums[0].items.append(EnumItem('added'))
             r1.enums[0].name = 'renamed'
             r1.table_groups[0].items.pop()
+        elif e == 7:
+            # every note that shares its source text ('cn') with another one, edited in place
+            for n in _notes(r1):
+                n.text = 'changed in place'
         else:
             r1.tables[0].indexes[0].subjects.append('raw')
             r1.tables[0].columns.pop()
@@ -270,9 +289,16 @@ def isolation(K=1, bare_project=False):
                 return 'two parse results share an object'
         if r2.project is not None and id(r2.project.items) in ids1:
             return 'two parse results share the project items dict'
+        n1 = set(id(n) for n in _notes(r1))
+        for r in (r2, r3):
+            ns = _notes(r)
+            if any(id(n) in n1 for n in ns):
+                return 'two parse results share a Note object'
+            if len(set(id(n) for n in ns)) != len(ns):
+                return 'two elements of one result share a Note object'
         return ''
 
-    return Harness(body, args, describe=lambda a: dict(a, bare_project=bare_project), bounds={'K': K, 'bare_project': bare_project})
+    return Harness(body, args, describe=lambda a: dict(a, bare_project=bare_project), bounds={'K': K, 'bare_project': bare_project}, fixed=fix)
 
 
 def instances(tier):
@@ -285,6 +311,9 @@ def instances(tier):
     for pos in ((1, 3) if quick else (0, 1, 2, 3)):
         out.append({'name': f'again/faulty/pos{pos}', 'factory': 'again', 'params': {'b_kind': 'faulty', 'K': K, 'fix': {'pos': pos}}, 'timeout': T1,
                     'native_limit': 40})
-    out.append({'name': 'isolation', 'factory': 'isolation', 'params': {'K': K}, 'timeout': T1, 'native_limit': 60})
-    out.append({'name': 'isolation/bare_project', 'factory': 'isolation', 'params': {'K': K, 'bare_project': True}, 'timeout': T1, 'native_limit': 60})
+    for e in range(8):
+        out.append({'name': f'isolation/edit{e}', 'factory': 'isolation', 'params': {'K': K, 'fix': {'edit': e}}, 'timeout': T1, 'native_limit': 60})
+    for e in (0, 2, 3, 7):     # the edits that touch the project or a note
+        out.append({'name': f'isolation/bare_project/edit{e}', 'factory': 'isolation', 'params': {'K': K, 'bare_project': True, 'fix': {'edit': e}},
+                    'timeout': T1, 'native_limit': 60})
     return out
